@@ -640,8 +640,13 @@ and run_case_model (oc : out_channel) (c : case) : unit =
           let a = nat_of_int (ios st.(1)) and b = nat_of_int (ios st.(2)) in
           (match node_cmp Z.compare !h a b with
            | Some c ->
-               Printf.sprintf "cmp eq=%d lt=%d le=%d cmp=%s pcmp=Some(%s)" (b2i (node_eqb keqb !h a b))
+               let va = (match valof !h a with Some v -> v | None -> z_of_int 0) and vb = (match valof !h b with Some v -> v | None -> z_of_int 0) in
+               (* the derived operators and Ord::max / Ord::min are std's defaults over cmp: max returns the second operand unless
+                  the first is greater, min the first unless the second is less *)
+               Printf.sprintf "cmp eq=%d lt=%d le=%d cmp=%s pcmp=Some(%s) ne=%d gt=%d ge=%d max=%s min=%s" (b2i (node_eqb keqb !h a b))
                  (b2i (c = Lt)) (b2i (c <> Gt)) (cmp_name c) (cmp_name c)
+                 (b2i (not (node_eqb keqb !h a b))) (b2i (c = Gt)) (b2i (c <> Lt))
+                 (zstr (if c = Gt then va else vb)) (zstr (if c = Gt then vb else va))
            | None -> "invalid")
       | "loop" ->
           let d = (match st.(1) with "out" -> DOut | "in" -> DIn | "adj" -> DAdj | _ -> if directed then DOut else DAdj) in
@@ -762,6 +767,7 @@ let run_own_case (oc : out_channel) (c : case) : unit =
       | "odis" ->
           let (h1, r) = step (!st).o_heap (ODisconnect (node_in (ios stp.(1)), n_of_int (ios stp.(2)))) in
           set_heap_ h1; (outcome_str r, [])
+      | "oexer" -> ("ok", [])   (* traversals whose results are dropped at once: ownership unchanged *)
       | "oiso" ->
           let (h1, r) = step (!st).o_heap (OIsolate (node_in (ios stp.(1)))) in
           set_heap_ h1; (outcome_str r, [])
